@@ -509,5 +509,5 @@ def spaces(tier, seed):
         Space('world_histories', [({'world': w}, 2 if tier == 'quick' else 3) for w in ('xxz3', 'ising3', 'fh2', 'bh3', 'linf3', 'mol4')],
               run_chunk=_hist_chunk, sig=sig,
               bounds={'worlds': ['xxz3', 'ising3', 'fh2', 'bh3', 'linf3', 'mol4'], 'depth': 2 if tier == 'quick' else 3,
-                      'menu': 'the 25-operation menu of C02', 'invariant': 'non-target objects bit-identical; no shared array memory between objects'}),
+                      'menu': 'the 28-operation menu of C02', 'invariant': 'non-target objects bit-identical; no shared array memory between objects'}),
     ]
